@@ -154,12 +154,15 @@ Definition fin_seen (s : st) (r : nat) : st := set_lv s (set_chs r false (lv s))
 Definition park_head (s : st) (r : nat) (m : item) : st :=
   pop (set_lv s (set_lbuf r (lbuf (get_lvl r (lv s)) ++ [m]) (lv s))).
 
-(* one iteration of the loop of flushRetryBuffers: highWatermark--, updateLeader if needed, send the level's buffer *)
+(* highWatermark-- ; the level's buffer is taken (`buf = nil` at flushDone) *)
+Definition lower (s : st) (h' : nat) : st := set_lv (set_hwm s h') (set_lbuf h' [] (lv s)).
+
+(* one iteration of the loop of flushRetryBuffers: highWatermark--, updateLeader if needed, send the level's buffer
+   (a failed lookup fails the buffered messages) *)
 Definition flush1 (s : st) (h' : nat) (lk : list (option nat)) : st * list (option nat) :=
-  let s0 := set_hwm s h' in
-  let '(s1, ok, lk1) := ensure_bp s0 lk in
-  let s2 := if ok then send_cur s1 (lbuf (get_lvl h' (lv s1))) else s1 in
-  (set_lv s2 (set_lbuf h' [] (lv s2)), lk1).
+  let ms := lbuf (get_lvl h' (lv s)) in
+  let '(s1, ok, lk1) := ensure_bp (lower s h') lk in
+  ((if ok then send_cur s1 ms else s1), lk1).
 
 (* flushRetryBuffers entered with highWatermark = h (fuel = h) *)
 Fixpoint flush (s : st) (h : nat) (lk : list (option nat)) : st :=
